@@ -273,10 +273,10 @@ func checkC04(cx *Ctx, r *Report) {
 		_, isC := signCall.Common().Args[3].(*ssa.Const)
 		r.Check(isC && sg == "", "R-VFG", "redirect:sign-without-signature-slot", w.InstrPos(signCall), "the string signed has no Signature parameter", "the string that is signed already contains a Signature parameter")
 		// sigAlg at the signing site is the raw algorithm parameter
-		r.Check(fx.path(signCall.Common().Args[2]) == "createRedirectSignature/signatureAlgorithm", "R-VFG", "redirect:signed-sigalg", w.InstrPos(signCall), "the configured algorithm URI", "the SigAlg that is signed is not the plain algorithm URI")
+		r.Check(fx.T(fx.path(signCall.Common().Args[2])) == "<#3 string>", "R-VFG", "redirect:signed-sigalg", w.InstrPos(signCall), "the configured algorithm URI", "the SigAlg that is signed is not the plain algorithm URI")
 		// sending site uses the Response fields
-		for i, f := range map[int]string{1: "r.RelayState", 2: "r.SigAlg", 3: "r.Signature"} {
-			p := fx.path(sendCall.Common().Args[i])
+		for i, f := range map[int]string{1: "<provider.Response>.RelayState", 2: "<provider.Response>.SigAlg", 3: "<provider.Response>.Signature"} {
+			p := fx.T(fx.path(sendCall.Common().Args[i]))
 			r.Check(strings.HasSuffix(p, f), "R-VFG", fmt.Sprintf("redirect:send-arg%d", i), w.InstrPos(sendCall), "sent value is "+f, fmt.Sprintf("argument %d of the sent query is %s, not %s", i, p, f))
 		}
 	}
@@ -315,7 +315,7 @@ func checkC04(cx *Ctx, r *Report) {
 	// RelayState signed = Response.RelayState
 	for _, c := range callsIn(cs) {
 		if calleeOf(c) == crs {
-			r.Check(strings.HasSuffix(fx.path(c.Common().Args[4]), "response.RelayState"), "R-VFG", "redirect:signed-relaystate", w.InstrPos(c), "the RelayState that is signed is Response.RelayState, the one sent", "the RelayState that is signed is not the Response.RelayState that is sent")
+			r.Check(strings.HasSuffix(fx.T(fx.path(c.Common().Args[4])), "<provider.Response>.RelayState"), "R-VFG", "redirect:signed-relaystate", w.InstrPos(c), "the RelayState that is signed is Response.RelayState, the one sent", "the RelayState that is signed is not the Response.RelayState that is sent")
 		}
 	}
 	// BuildRedirectQuery escapes each value exactly once
